@@ -286,7 +286,7 @@ def validate_trace(ctx, families, module, cfg, trace_path, timeout=1800, env=Non
         v.violated = r.violated
         v.line = int(lm[-1]) - 1 if lm else None     # l points at the NEXT line to consume
     else:
-        pm = re.search(r'<<"TRACE-STUCK", (\d+)', r.out)
+        pm = re.search(r'<<\s*"TRACE-STUCK",\s*(\d+)', r.out)
         if pm:
             v.violated = "TraceStuck"
             v.line = int(pm.group(1))
